@@ -1091,3 +1091,23 @@ V('v08.16', 'C08', 'F', 'C08.R3', 'movement computed over the submodels only (se
   (LINKERS, LT, 'diff = {k: current_values[k] - previous_values[k] for k in current_values}', 'diff = {k: current_values[k] - previous_values[k] for k in submodels}'))
 V('v08.s3', 'C08', 'S', None, 'movement computed over previous_values.keys()',
   (LINKERS, LT, 'diff = {k: current_values[k] - previous_values[k] for k in current_values}', 'diff = {k: current_values[k] - previous_values[k] for k in previous_values.keys()}'))
+V('v07.12', 'C07', 'F', 'C07.R5', 'revert F19: error code stays -1 when no pass runs',
+  (FORTRAN, 'FORTRAN_TEMPLATE', "  error_code = 0\n\n  ! Solve\n", "  ! Solve\n"))
+V('v07.13', 'C07', 'F', 'C07.R2b', 'engine results stored after the status loop (seeded C07/3)',
+  (FORTRAN, 'FortranEngine.solve', "        # Store the values back to this Python instance\n        self.values = solved_values\n\n", ""),
+  (FORTRAN, 'FortranEngine.solve', "        return labels, indexes, solved", "        self.values = solved_values\n\n        return labels, indexes, solved"))
+V('v02.20', 'C02', 'F', 'C02.R5', 'abs after max (seeded C02/3)', (MODELS, ST, 'np.all(np.abs(diff) < tol)', 'np.abs(diff.max()) < tol'))
+V('v02.21', 'C02', 'F', 'C02.R5', 'gate before the re-read (seeded C02/1)',
+  (MODELS, ST, "            current_values = get_check_values()\n\n            # It's possible", "            if iteration < min_iter:\n                continue\n\n            current_values = get_check_values()\n\n            # It's possible"),
+  (MODELS, ST, "            if iteration < min_iter:\n                continue\n\n            diff =", "            diff ="))
+V('v18.6', 'C18', 'F', 'C18.R2', 'revert F20: self-maps dropped only after the loop',
+  (XCOMMON, f'{AM}.__init__', "            aliases = {k: v for k, v in aliases.items() if k != v}\n\n            # Check for chained aliases", "            # Check for chained aliases"))
+V('v18.7', 'C18', 'F', 'C18.R5', 'groupby over unsorted aliases (seeded C18/1)',
+  (XCOMMON, f'{AM}.to_dataframe', "sorted_by_value = sorted(self.aliases.items(), key=lambda x: x[1])", "sorted_by_value = list(self.aliases.items())"))
+V('v19.6', 'C19', 'F', 'C19.R1', 'revert F21: isnan applied to None', (TOOLS, 'dataframe_to_symbols', 'if field is None or np.isnan(field):', 'if np.isnan(field):'))
+V('v01.15', 'C01', 'F', 'C01.R1', 'lookup by last dotted component (seeded C01/2)',
+  (PARSER, 'Term.code', 'return replacement_function_names.get(code, code)', "_, _, function_name = code.rpartition('.')\n            return replacement_function_names.get(function_name, code)"))
+V('v01.16', 'C01', 'F', 'C01.R3', 'equation text rewritten after formatting (seeded C01/3)',
+  (PARSER, 'parse_equation', "    code = template.format(*[t.code for t in terms])\n", "    code = template.format(*[t.code for t in terms])\n    if equation.endswith(')'):\n        equation = equation[:-1]\n"))
+V('v13.13', 'C13', 'F', 'C13.R5a', 'LHS guard also accepts verbatim terms (seeded C13/3)',
+  (PARSER, 'parse_equation_terms', 'if not any(filter(lambda x: x.type == Type.ENDOGENOUS, lhs_terms)):', 'if not any(filter(lambda x: x.type in (Type.ENDOGENOUS, Type.VERBATIM), lhs_terms)):'))
